@@ -638,6 +638,25 @@ fn monitor(p: &Prog, rng: &mut Rng, out: &mut Out, draws: usize, emit_has_type: 
         for b in seed.iter_mut() { *b = rng.next() as u8; }
         let vals = eval_all(&p.g, &inputs, seed);
         out.stat("monitor_runs");
+        // the whole-graph evaluation (its own scheduling and freeing of intermediate values): no
+        // panic, and where every node evaluates, the output node's value, of the output's type
+        if p.g.get_output_node().is_ok() {
+            let oid = p.g.get_output_node().unwrap().get_id() as usize;
+            let (g2, in2) = (p.g.clone(), inputs.clone());
+            let whole = observe(move || ciphercore_base::evaluators::evaluate_simple_evaluator(g2, in2, Some(seed)));
+            let desc = || json!({"ops": nodes.iter().map(|n| op_name(&n.get_operation())).collect::<Vec<_>>(), "output_node": oid, "readers_of_output": nodes.iter().filter(|n| n.get_node_dependencies().iter().any(|d| d.get_id() as usize == oid)).count()});
+            out.stat(&format!("whole_graph_eval:{}", whole.tag()));
+            match (&whole, vals.iter().all(|v| matches!(v, Outcome::Ok(_)))) {
+                (Outcome::Panic, _) => out.violation("evaluate-graph-panics", desc(), "evaluate_graph panicked on a graph the builder accepted".into()),
+                (Outcome::Ok(w), true) => {
+                    let same = matches!(&vals[oid], Outcome::Ok(v) if v == w);
+                    let typed = w.check_type(p.g.get_output_node().unwrap().get_type().unwrap()).unwrap_or(false);
+                    if !same || !typed { out.violation("evaluate-graph-output-differs", desc(), format!("whole-graph result equals the output node's value: {}, has the output type: {}", same, typed)); } else { out.oracle_ok(); }
+                }
+                (Outcome::Err, true) => out.violation("evaluate-graph-fails", desc(), "evaluate_graph returns an error although every node evaluates".into()),
+                _ => out.oracle_ok(),
+            }
+        }
         for (n, v) in nodes.iter().zip(vals.iter()) {
             let op = n.get_operation();
             let name = op_name(&op);
